@@ -446,17 +446,34 @@ fn main() {
                     }
                 }
             }
-            // slice_ref with a subset from another buffer: documented to panic; whatever it returns
-            // must still be valid UTF-8 (the property)
+            // slice_ref with a subset from another buffer (a copy of the text; another text of the same
+            // length; the sibling half of a split): documented to panic; whatever it returns must be valid UTF-8 and
+            // must be the text it was asked for (the equivalent str operation yields `subset` itself)
             if !s.is_empty() {
-                let other = st.to_owned();
                 let bs = &values[0].1;
-                match catch(|| bs.slice_ref(&other)) {
-                    Ok(r) => {
-                        let ok = spec_says(&r.as_bytes()[..]).unwrap_or_else(|| std::str::from_utf8(&r.as_bytes()[..]).is_ok());
-                        rep.check(i, "slice_ref:foreign:valid", ok, json!("valid UTF-8"), json!(r.as_bytes()[..]));
+                let mut foreign: Vec<String> = vec![st.to_owned()];
+                foreign.push(if st.bytes().all(|b| b == b'A') { "B".repeat(len) } else { "A".repeat(len) });
+                for f in &foreign {
+                    match catch(|| bs.slice_ref(f)) {
+                        Ok(r) => {
+                            let ok = spec_says(&r.as_bytes()[..]).unwrap_or_else(|| std::str::from_utf8(&r.as_bytes()[..]).is_ok());
+                            rep.check(i, "slice_ref:foreign:valid", ok, json!("valid UTF-8"), json!(r.as_bytes()[..]));
+                            rep.check(i, "slice_ref:foreign:text", r.as_bytes()[..] == *f.as_bytes(), json!(f.as_bytes()), json!(r.as_bytes()[..]));
+                        }
+                        Err(_) => n_foreign_panics += 1,
                     }
-                    Err(_) => n_foreign_panics += 1,
+                }
+                // the two halves of a split are not sub-slices of each other
+                for mid in 1..len {
+                    if mid * 2 == len && mid_in(&v.b, mid) {
+                        if let Ok((l, r)) = catch(|| bs.split_at(mid)) {
+                            let rs: &str = &r;
+                            match catch(|| l.slice_ref(rs)) {
+                                Ok(x) => rep.check(i, "slice_ref:sibling:text", x.as_bytes()[..] == *rs.as_bytes(), json!(rs.as_bytes()), json!(x.as_bytes()[..])),
+                                Err(_) => n_foreign_panics += 1,
+                            }
+                        }
+                    }
                 }
             }
             split_ok_everywhere = (0..=len + 1).filter(|m| split_ok_count[*m] == nvalues).collect();
